@@ -142,6 +142,13 @@ func runTagKeep(c *core.Ctx) {
 				return mentions(x.X, idx, d+1)
 			case *ssa.Convert:
 				return mentions(x.X, idx, d+1)
+			case *ssa.Phi:
+				// a materialised && / || (tag-less switch): any operand
+				for _, e := range x.Edges {
+					if mentions(e, idx, d+1) {
+						return true
+					}
+				}
 			}
 			return false
 		}
@@ -222,6 +229,43 @@ func runTagKeep(c *core.Ctx) {
 					found = append(found, site{"overwrite", st, ix, b})
 				}
 			}
+		}
+		// removals done through a helper: a method of the index that removes the entry at a position it is given, or a
+		// function that removes a position from a descriptor list it is given (and whose result is stored back)
+		for _, b := range fn.Blocks {
+			for _, in := range b.Instrs {
+				switch x := in.(type) {
+				case *ssa.Call:
+					if h := x.Call.StaticCallee(); h != nil && h != fn && len(x.Call.Args) > 0 && x.Call.Args[0] == ssa.Value(recv) {
+						if pi, ok := removerMethod(h); ok && pi < len(x.Call.Args) {
+							found = append(found, site{"remove", x, x.Call.Args[pi], b})
+						}
+					}
+				case *ssa.Store:
+					if isManifestsField(x.Addr) {
+						if call, ok := x.Val.(*ssa.Call); ok {
+							if h := call.Call.StaticCallee(); h != nil && len(call.Call.Args) >= 2 {
+								if li, pi, ok := listRemover(h); ok && li < len(call.Call.Args) && pi < len(call.Call.Args) {
+									if ld, ok := call.Call.Args[li].(*ssa.UnOp); ok && isManifestsField(ld.X) {
+										found = append(found, site{"remove", x, call.Call.Args[pi], b})
+									}
+								}
+							}
+						}
+					}
+				}
+			}
+		}
+		// a remover helper's own shrink is accounted for at its call sites
+		if _, isRemover := removerMethod(fn); isRemover {
+			var kept []site
+			for _, st := range found {
+				if _, isParam := st.idx.(*ssa.Parameter); isParam {
+					continue
+				}
+				kept = append(kept, st)
+			}
+			found = kept
 		}
 		// a method that only removes (never appends to the list) removes every matching entry: after a removal the
 		// scan continues — no path from the removal leaves the loop without passing its header again
@@ -372,4 +416,71 @@ func runTagKeep(c *core.Ctx) {
 	if sites == 0 {
 		c.Unresolved("sites", "no in-place edit of Index.Manifests found in the methods of types.Index")
 	}
+}
+
+// removerMethod: h is a pointer-receiver method that shortens a slice field of its receiver after overwriting the
+// element at a position given by one of its parameters. Returns that parameter's index in the argument list.
+func removerMethod(h *ssa.Function) (int, bool) {
+	if h == nil || len(h.Blocks) == 0 || h.Signature.Recv() == nil || len(h.Params) < 2 {
+		return 0, false
+	}
+	recv := h.Params[0]
+	shrinks := false
+	idxParam := -1
+	an.Instrs(h, func(in ssa.Instruction) {
+		st, ok := in.(*ssa.Store)
+		if !ok {
+			return
+		}
+		if fa, ok := st.Addr.(*ssa.FieldAddr); ok && fa.X == ssa.Value(recv) {
+			if sl, ok := st.Val.(*ssa.Slice); ok && sl.High != nil && sl.Low == nil {
+				if stt, ok := an.Deref(fa.X.Type()).Underlying().(*types.Struct); ok && stt.Field(fa.Field).Name() == "Manifests" {
+					shrinks = true
+				}
+			}
+		}
+		if ia, ok := st.Addr.(*ssa.IndexAddr); ok {
+			for k, p := range h.Params {
+				if k > 0 && an.Origin(ia.Index) == ssa.Value(p) {
+					idxParam = k
+				}
+			}
+		}
+	})
+	return idxParam, shrinks && idxParam > 0
+}
+
+// listRemover: h takes a slice and a position, overwrites the element at the position and returns the slice shortened.
+func listRemover(h *ssa.Function) (int, int, bool) {
+	if h == nil || len(h.Blocks) == 0 || h.Signature.Recv() != nil || h.Signature.Results().Len() != 1 {
+		return 0, 0, false
+	}
+	li, pi := -1, -1
+	an.Instrs(h, func(in ssa.Instruction) {
+		switch x := in.(type) {
+		case *ssa.Store:
+			if ia, ok := x.Addr.(*ssa.IndexAddr); ok {
+				for k, p := range h.Params {
+					if an.Origin(ia.X) == ssa.Value(p) {
+						li = k
+					}
+					if an.Origin(ia.Index) == ssa.Value(p) {
+						pi = k
+					}
+				}
+			}
+		}
+	})
+	if li < 0 || pi < 0 {
+		return 0, 0, false
+	}
+	ok := false
+	an.Instrs(h, func(in ssa.Instruction) {
+		if ret, isRet := in.(*ssa.Return); isRet && len(ret.Results) == 1 {
+			if sl, isSl := an.Strip(ret.Results[0]).(*ssa.Slice); isSl && sl.High != nil && sl.Low == nil && an.Origin(sl.X) == ssa.Value(h.Params[li]) {
+				ok = true
+			}
+		}
+	})
+	return li, pi, ok
 }
